@@ -1,5 +1,6 @@
 """Thin wrappers that call the real decoder and classify the outcome."""
 import json
+from mc import strictjson
 
 
 def config(plugins=True, **kw):
@@ -26,7 +27,7 @@ def parse(b, cfg=None, plugins=True):
     if text == '' or text is None:
         return {'kind': 'empty', 'index': st.index, 'eid': eid}
     try:
-        doc = json.loads(text)
+        doc = strictjson.loads(text)
     except Exception as e:
         return {'kind': 'badjson', 'text': text, 'index': st.index, 'eid': eid, 'msg': str(e)}
     return {'kind': 'doc', 'doc': doc, 'text': text, 'eid': eid, 'index': st.index}
